@@ -10,7 +10,7 @@ export GOFLAGS=-mod=mod GOPROXY=off GOSUMDB=off GOTOOLCHAIN=local GONOSUMCHECK=1
 cp "$REPO/go.mod" "$B/go.mod"
 cp "$REPO/go.sum" "$B/go.sum"
 python3 - "$VERIF" "$REPO" "$B" <<'PY'
-import json, os, sys
+import json, os, re, sys
 verif, repo, b = sys.argv[1:4]
 rep = {}
 hd = os.path.join(verif, "harness", "verifh")
@@ -23,16 +23,29 @@ for f in sorted(os.listdir(ed)):
     if f.endswith(".go") and "__" in f:
         pkg, name = f.split("__", 1)
         rep[os.path.join(repo, pkg.replace("_", "/"), "zz_verif_" + name)] = os.path.join(ed, f)
-# rewrite seams: harness/rewrite/*.json = {"file": "<path in repo>", "subst": [[old, new, count], ...]}.  The repo file is
-# copied to build/rewrite/ with exactly these token substitutions and overlaid; a substitution whose
-# occurrence count differs fails the build (exit != 0 -> ./check exits 2: the check could not run).
+# rewrite seams: harness/rewrite/*.json = {"file": "<path in repo>", "subst": [[old, new, count], ...], "forbid": [regex, ...]}.
+# The repo file is copied to build/rewrite/ with exactly these token substitutions and overlaid.  count is either a number
+# (exactly that many occurrences) or ">=N" (every occurrence, at least N of them); a substitution whose occurrence count
+# does not fit, or a "forbid" regex that matches the source, fails the build (exit != 0 -> ./check reports the tie as
+# broken: the seam has to be looked at again, the check could not run).
 rd = os.path.join(verif, "harness", "rewrite")
 for f in sorted(os.listdir(rd)) if os.path.isdir(rd) else []:
     if f.endswith(".json"):
         spec = json.load(open(os.path.join(rd, f)))
         src = open(os.path.join(repo, spec["file"])).read()
+        # forbid patterns look at the code only: comments are blanked, string literals kept
+        code = re.sub(r'"(?:\\.|[^"\\\n])*"|`[^`]*`|\'(?:\\.|[^\'\\\n])*\'|//[^\n]*|/\*.*?\*/',
+                      lambda m: m.group(0) if m.group(0)[0] in "\"`'" else " ", src, flags=re.S)
+        for rx in spec.get("forbid", []):
+            m = re.search(rx, code)
+            if m:
+                sys.exit("rewrite %s: %s now contains %r (forbidden pattern %r): the seam does not cover it" % (f, spec["file"], m.group(0), rx))
         for old, new, cnt in spec["subst"]:
-            if src.count(old) != cnt:
+            n = src.count(old)
+            if isinstance(cnt, str):
+                if not cnt.startswith(">=") or n < int(cnt[2:]):
+                    sys.exit("rewrite %s: expected %s occurrence(s) of %r in %s, found %d" % (f, cnt, old, spec["file"], n))
+            elif n != cnt:
                 sys.exit("rewrite %s: expected %d occurrence(s) of %r in %s" % (f, cnt, old, spec["file"]))
             src = src.replace(old, new)
         out = os.path.join(b, "rewrite", spec["file"].replace("/", "__"))
